@@ -37,6 +37,20 @@ func (e *Engine) havocLoop(fr *Frame, st *State, head *ssa.BasicBlock, phis []*s
 			old, _ := e.heapGet(st, t.whole).(ArrV)
 			st.heap[t.whole] = e.freshArr(st, old.Elem, t.whole.Name+"_loop")
 		case t.ptr != nil:
+			if mt, isMap := under(t.ptr.Obj.T).(*types.Map); isMap && len(t.ptr.Path) == 0 {
+				card := e.freshVar("loop_card", SInt)
+				st.assume(Le(Num(0), card))
+				st.assume(Le(card, NumB(maxLen)))
+				st.heap[t.ptr.Obj] = MapC{KeySort: SInt, Dom: e.freshVar("loop_dom", SSet), Card: card, ValT: mt.Elem(), RestID: e.freshName("loop_rest")}
+				continue
+			}
+			if mv, isMap := e.loadPtr(st, *t.ptr).(MapV); isMap && mv.Obj != nil {
+				card := e.freshVar("loop_card", SInt)
+				st.assume(Le(Num(0), card))
+				st.assume(Le(card, NumB(maxLen)))
+				st.heap[mv.Obj] = MapC{KeySort: SInt, Dom: e.freshVar("loop_dom", SSet), Card: card, ValT: mv.T.Elem(), RestID: e.freshName("loop_rest")}
+				continue
+			}
 			e.storePtr(st, *t.ptr, e.fresh(st, t.ptr.Elem, "loop_"+t.ptr.Obj.Name))
 		}
 	}
@@ -98,7 +112,10 @@ func (e *Engine) collectWrites(fr *Frame, st *State, fn *ssa.Function, blocks ma
 		switch x := v.(type) {
 		case *ssa.FieldAddr:
 			p, whole, ok := addrOf(x.X)
-			if !ok || p.Obj == nil {
+			if ok && p.Obj == nil {
+				return PtrV{}, false, true // field of an object allocated inside the region
+			}
+			if !ok {
 				return PtrV{}, false, false
 			}
 			if whole {
@@ -369,16 +386,28 @@ func (e *Engine) contractWrites(st *State, con *Contract, args []ssa.Value, argV
 	if len(con.Modifies) == 0 {
 		return
 	}
-	ctx := e.ctxFor(st, nil, con, con.Key)
+	ctx := e.ctxFor(st, nil, con, con.Key).soft()
 	ctx.noVars = true
+	unbound := map[string]bool{}
 	for i, name := range con.Params {
 		if i < len(args) {
 			if r, ok := argVal(args[i]); ok {
 				ctx.bind[name] = r
+			} else {
+				unbound[name] = true // computed inside the loop: a loop-local object
 			}
 		}
 	}
 	for _, m := range con.Modifies {
+		local := false
+		for n := range unbound {
+			if exprMentions(m, n) {
+				local = true
+			}
+		}
+		if local {
+			continue
+		}
 		l, ok := ctx.loc(m)
 		if !ok {
 			e.toolError("loop frame analysis: cannot resolve modifies %s of %s", exprStr(m), con.Key)
